@@ -444,6 +444,11 @@ func c16NullSafe(c *Ctx, d *Dispatcher) {
 			}
 		}
 	})
+	if !normOK {
+		// judged on every path instead (written out as `if IsNull(v) { return nil, nil }; return v, nil`, or unified
+		// inside the reader): C16.members-nil-unified
+		normOK = c.nilUnifiedOK(d)
+	}
 	c.R.Check(rule, "result-nil-normalised", pos, normOK, "the value read must pass the nil normaliser (typed nil pointers become null)")
 	// member reader: null base -> (nil, nil) before any reflection; kind arms
 	rp := c.P.Pos(reader.Pos())
@@ -1152,6 +1157,27 @@ func c16NilUnified(c *Ctx, d *Dispatcher, rule string) {
 				return // an error return
 			}
 			n++
+			// written out: the value is returned on the not-null side of a test IsNull(value)
+			guarded := func(v ssa.Value) bool {
+				isNull := c.fn("IsNull")
+				for d := ret.Block(); d != nil; d = d.Idom() {
+					id := d.Idom()
+					if id == nil || len(d.Preds) != 1 {
+						continue
+					}
+					iff, isIf := id.Instrs[len(id.Instrs)-1].(*ssa.If)
+					if !isIf || id.Succs[1] != d {
+						continue
+					}
+					if call, isC := iff.Cond.(*ssa.Call); isC && calleeOf(call) == isNull && len(call.Call.Args) == 1 && stripIface(call.Call.Args[0]) == stripIface(v) {
+						return true
+					}
+				}
+				return false
+			}
+			if guarded(ret.Results[idx]) {
+				return
+			}
 			for _, rt := range plainOrigins.Roots(ret.Results[idx]) {
 				switch {
 				case rt.Kind == "const" && isNilConst(rt.V):
@@ -1172,5 +1198,16 @@ func c16NilUnified(c *Ctx, d *Dispatcher, rule string) {
 		return ok, why
 	}
 	ok, why := check(h, 0, 0)
+	if rule == "" {
+		nilUnifiedResult[c] = ok
+		return
+	}
 	c.R.Check(rule, "selector-results", c.P.Pos(h.Pos()), ok, "a member that holds a typed nil pointer must read as null on every path (map entry and struct field alike): "+why)
+}
+
+var nilUnifiedResult = map[*Ctx]bool{}
+
+func (c *Ctx) nilUnifiedOK(d *Dispatcher) bool {
+	c16NilUnified(c, d, "")
+	return nilUnifiedResult[c]
 }
